@@ -1268,8 +1268,12 @@ def rule_T8ii(ctx, qualname, rid='T8'):
     augs = [n for n in aug_nodes(cfg) if
             isinstance(n.ast.op, ast.Add) and root_attr(n.ast.target, selfn) and
             not root_attr(n.ast.target, selfn)[1]]
+    def _local_count(n):
+        # K is a count computed in this function (not a value unpacked from a worker)
+        ds = cfg.defs_at(n.id, n.ast.value.id)
+        return bool(ds) and all(cfg.nodes[d].kind == 'stmt' for d in ds)
     ns = [n for n in augs if root_attr(n.ast.target, selfn)[0] == 'n_sample' and
-          isinstance(n.ast.value, ast.Name)]
+          isinstance(n.ast.value, ast.Name) and _local_count(n)]
     nr = [n for n in augs if root_attr(n.ast.target, selfn)[0] == 'n_reject' and
           isinstance(n.ast.value, ast.BinOp)]
     ctx.require(ns and nr, '%s: local proposal/rejection accounting not found' % qualname)
